@@ -160,3 +160,62 @@ Proof.
   destruct (rank_of ranks 1%N <? rank_of ranks 2%N) eqn:E1; destruct (rank_of ranks 2%N <? rank_of ranks 1%N) eqn:E2; auto.
   apply Nat.ltb_lt in E1. apply Nat.ltb_lt in E2. lia.
 Qed.
+
+(* ---- a lock leaked to the caller ---- *)
+
+(* A goroutine u that has returned to its caller still holds m in write mode.  In EVERY state in which that is so — and
+   it is so in every later state: u executes no library code any more, nobody else can unlock for it — no goroutine
+   blocked on m (in either mode) can enter, whatever the other goroutines do and however many they are. *)
+Theorem leaked_lock_blocks : forall (ts : lockstate) u m,
+  In u ts -> holds_w m u = true ->
+  forall t md, In t ts -> l_wait t = Some (m, md) -> can_enter ts t = false.
+Proof.
+  intros ts u m Hu Hw t md Ht Hwait. unfold can_enter. rewrite Hwait.
+  assert (Ew : existsb (holds_w m) ts = true) by (apply existsb_exists; exists u; auto).
+  assert (Eh : existsb (holds_any m) ts = true) by (apply existsb_exists; exists u; auto using holds_w_holds_any).
+  destruct md; [rewrite Ew|rewrite Eh]; reflexivity.
+Qed.
+
+(* a read lock that leaked blocks every writer (and then, by writer preference, every later reader behind it) *)
+Theorem leaked_read_lock_blocks_writers : forall (ts : lockstate) u m,
+  In u ts -> holds_any m u = true ->
+  forall t, In t ts -> l_wait t = Some (m, MW) -> can_enter ts t = false.
+Proof.
+  intros ts u m Hu Hh t Ht Hwait. unfold can_enter. rewrite Hwait.
+  assert (Eh : existsb (holds_any m) ts = true) by (apply existsb_exists; exists u; auto). now rewrite Eh.
+Qed.
+
+(* the witness: goroutine 0 returned from SetSpan holding 3; goroutines 1 and 2 are stuck in Lock / RLock for ever: this is
+   a deadlock state although nobody violates any order *)
+Definition leaked_lock_state : lockstate :=
+  [ {| l_held := [(3%N, MW)]; l_wait := None |};
+    {| l_held := []; l_wait := Some (3%N, MW) |};
+    {| l_held := []; l_wait := Some (3%N, MR) |} ].
+Lemma leaked_lock_state_stuck :
+  (forall t, In t leaked_lock_state -> waiting t = true -> can_enter leaked_lock_state t = false) /\
+  no_lock_leak [ {| x_held := [3%N] |} ] = false.
+Proof. split; [|reflexivity]. intros t [<-|[<-|[<-|[]]]] H; try discriminate; reflexivity. Qed.
+
+(* the positive side: when no entry point returns holding anything, a goroutine outside the library holds nothing *)
+Theorem no_leak_outside_holds_nothing : forall rows t,
+  no_lock_leak rows = true -> returned_from rows t -> l_held t = [].
+Proof.
+  intros rows t Hok (_ & r & Hin & Hsub). unfold no_lock_leak in Hok. rewrite forallb_forall in Hok. specialize (Hok r Hin).
+  destruct (x_held r) eqn:E; [|discriminate]. destruct (l_held t) as [|[m md] rest]; auto.
+  exfalso. apply (Hsub m). now left.
+Qed.
+
+(* ... and therefore never stands in anybody's way: with the whole discipline, a state whose blocked goroutines are at
+   rows of the table and whose other goroutines are either inside the library or have returned from an entry point is not
+   a deadlock, and the goroutine that is running with a lock is one INSIDE the library (it will reach its unlock) *)
+Theorem running_holder_is_inside : forall ranks acqs rows (ts : lockstate),
+  acq_table_ok ranks acqs = true -> no_lock_leak rows = true ->
+  (forall t, In t ts -> at_row acqs t) ->
+  (exists t, In t ts /\ waiting t = true) ->
+  (exists t, In t ts /\ waiting t = true /\ can_enter ts t = true) \/
+  (exists t, In t ts /\ l_held t <> [] /\ waiting t = false /\ ~ returned_from rows t).
+Proof.
+  intros ranks acqs rows ts Hok Hleak Hrows Hsome.
+  destruct (no_deadlock ranks acqs Hok ts Hrows Hsome) as [H|(t & Hin & Hh & Hw)]; [now left|right].
+  exists t. repeat split; auto. intros Hret. apply Hh. eapply no_leak_outside_holds_nothing; eauto.
+Qed.
